@@ -1013,6 +1013,22 @@ func ruleChildBucketError(c *Ctx, rule string) {
 				}
 				ei := errorResultIndex(fn.Signature)
 				ps := &pathSearch{fn: fn, fi: fi, start: to, stop: records}
+				// the failure carried on in a variable (`err = child.Err` … `if err != nil { bucket.Err = err }`): on
+				// this path that variable is not nil — error cells are latched — so the branch that finds it nil is
+				// not taken
+				ps.skipEdge = func(from, to2 *ssa.BasicBlock) bool {
+					for f := range fi.edgeFacts(from, to2) {
+						if f.Kind != "nonnil" || f.Pol {
+							continue
+						}
+						for _, leaf := range phiLeaves(f.V) {
+							if ff, base := loadedField(leaf); isErrCell(ff) && isChild(owner(base)) {
+								return true
+							}
+						}
+					}
+					return false
+				}
 				ps.atReturn = func(r *ssa.Return, k knowMap) bool {
 					if ei >= 0 && returnIsFailure(fi, r, ei, k) {
 						return false
